@@ -60,3 +60,59 @@ Proof.
   apply (oi_cur _ HO He).
 Qed.
 Print Assumptions C11_offer_is_the_table.
+
+(* and the actions do what they say.  chips_of p = (bankroll, initial, stack, pot, wager) *)
+From PF Require Import ProofsChips ProofsEffects.
+Theorem C11_fold_effect :
+  forall g i, allowed g i AFold = true -> (i < nplayers g)%nat ->
+    let s := fst (act_fold g i) in
+    snd (act_fold g i) = Ok /\ p_fold (get_p s i) = true /\
+    (forall j, (j < nplayers g)%nat -> chips_of (get_p s j) = chips_of (get_p g j)) /\
+    (forall j, j <> i -> p_fold (get_p s j) = p_fold (get_p g j)).
+Proof. exact fold_effect. Qed.
+Print Assumptions C11_fold_effect.
+
+Theorem C11_check_effect :
+  forall g i, allowed g i ACheck = true -> (i < nplayers g)%nat ->
+    let s := fst (act_check g i) in
+    snd (act_check g i) = Ok /\
+    (forall j, (j < nplayers g)%nat -> chips_of (get_p s j) = chips_of (get_p g j)) /\
+    (forall j, p_fold (get_p s j) = p_fold (get_p g j)).
+Proof. exact check_effect. Qed.
+Print Assumptions C11_check_effect.
+
+(* call: the seat pays the difference to the wager to match (to the big blind while the wager to match is
+   still below it), capped at its stack; nobody else's chips move *)
+Theorem C11_call_effect :
+  forall g i, allowed g i ACall = true -> (i < nplayers g)%nat ->
+    let s := fst (act_call g i) in
+    let p := get_p g i in
+    let delta := if st_cw (g_st g) <? m_bbb (g_meta g) then m_bbb (g_meta g) - p_wager p else st_cw (g_st g) - p_wager p in
+    snd (act_call g i) = Ok /\
+    chips_of (get_p s i) =
+      (if p_stack p <=? delta then (p_bankroll p, p_initial p, 0, p_pot p, p_initial p)
+       else (p_bankroll p, p_initial p, p_initial p - (p_wager p + delta), p_pot p, p_wager p + delta)) /\
+    (forall j, j <> i -> (j < nplayers g)%nat -> chips_of (get_p s j) = chips_of (get_p g j)).
+Proof. exact call_effect. Qed.
+Print Assumptions C11_call_effect.
+
+Theorem C11_allin_effect :
+  forall g i, allowed g i AAllin = true -> (i < nplayers g)%nat -> 0 <= p_stack (get_p g i) ->
+    let s := fst (act_allin g i) in
+    let p := get_p g i in
+    snd (act_allin g i) = Ok /\
+    chips_of (get_p s i) = (p_bankroll p, p_initial p, 0, p_pot p, p_initial p) /\
+    (forall j, j <> i -> (j < nplayers g)%nat -> chips_of (get_p s j) = chips_of (get_p g j)).
+Proof. exact allin_effect. Qed.
+Print Assumptions C11_allin_effect.
+
+Theorem C11_bet_effect :
+  forall g i x, allowed g i ABet = true -> (i < nplayers g)%nat -> 0 < x -> x < p_stack (get_p g i) ->
+    let s := fst (act_bet g i x) in
+    let p := get_p g i in
+    snd (act_bet g i x) = Ok /\
+    chips_of (get_p s i) = (p_bankroll p, p_initial p, p_initial p - (p_wager p + x), p_pot p, p_wager p + x) /\
+    st_prs (g_st s) = x /\
+    (forall j, j <> i -> (j < nplayers g)%nat -> chips_of (get_p s j) = chips_of (get_p g j)).
+Proof. exact bet_effect. Qed.
+Print Assumptions C11_bet_effect.
